@@ -2,6 +2,8 @@
 #include <cstring>
 #include <new>
 #include <stdexcept>
+#include <initializer_list>
+#include <string>
 #include <vector>
 
 #include "../io/fault_io.h"
@@ -151,6 +153,30 @@ struct Blob
     return x;
   }
   bool operator==(const Blob &o) const { return std::memcmp(b, o.b, N) == 0; }
+};
+
+// element types that are not plain bytes: one that owns heap memory, and a value class in the style of JSON libraries
+// (constructible from a list of itself), for which "copy" and "wrap in a one-element list" are different things
+struct StrElem
+{
+  std::string s;
+  static StrElem make(int v)
+  {
+    StrElem e;
+    e.s = "element-" + std::to_string(v) + "-longer-than-the-small-string-buffer";
+    return e;
+  }
+  bool operator==(const StrElem &o) const { return s == o.s; }
+};
+struct ListValue
+{
+  int v = 0;
+  std::vector<ListValue> items;
+  ListValue() = default;
+  ListValue(int x) : v(x) {}
+  ListValue(std::initializer_list<ListValue> l) : v(-1), items(l) {}
+  static ListValue make(int x) { return ListValue(x); }
+  bool operator==(const ListValue &o) const { return v == o.v && items == o.items; }
 };
 
 template <typename T>
@@ -356,6 +382,8 @@ extern "C" void a14_run()
     case 1: vector_history<Blob<4>>(p); break;
     case 2: vector_history<Blob<12>>(p); break;
     case 3: vector_history<Blob<16>>(p); break;
+    case 5: vector_history<StrElem>(p); break;
+    case 6: vector_history<ListValue>(p); break;
     default: vector_history<Blob<64>>(p); break;
     }
     break;
